@@ -467,6 +467,15 @@ func flattenScenarios(tier string, seed int64, scratch string) ([]*Case, []strin
 		case fs.C != "none" && fs.C != "gennames" && fs.C != "gennames2":
 			collider = "N_1"
 		}
+		if fs.T == "auxempty" {
+			// names of the alphabet (braces, brackets) that mangle to nothing
+			for ph, nm := range map[string]string{"N_1": "{}", "N_25": "[]"} {
+				if _, bound := g.Names.ToConcrete[ph]; !bound && !g.usedConcrete[nm] {
+					g.usedConcrete[nm] = true
+					g.Names.Bind(ph, nm)
+				}
+			}
+		}
 		if _, bound := g.Names.ToConcrete[collider]; collider != "" && !bound {
 			for try := 0; try < 50; try++ {
 				nm := plainWords[g.r.Intn(len(plainWords))]
